@@ -504,6 +504,30 @@ func SetRecord(name, typ, id, data)
 @*/
 
 /*@
+module tokenid
+props C12
+use nns names
+dialect neovm
+
+// C12: records of sub-names live under the longest registered enclosing name. tokenIDFromName(name) returns the longest
+// suffix of name that starts at a label boundary, is not the bare TLD, and is registered and unexpired - or name itself
+// if there is none. pos(name, i) is the byte position at which label i starts (splitacc: length of the first i labels
+// joined by dots, from the contract of std.StringSplit).
+pure nkey(n Bytes) Bytes = "\x21" ++ ripemd160(n)
+pure usableName(s Store, n Bytes) Bool = s.has(nkey(n)) && now < deser_NameState(s.get(nkey(n))).Expiration
+pure pos(n Bytes, i Int) Int = i == 0 ? 0 : splitacc(n, ".", i) + 1
+
+func tokenIDFromName(ctx, name) (r)
+  pure
+  ensures [C12] (r == name && (forall j Int {pos(name, j)} :: 0 <= j && j < len(split(name, ".")) - 1 ==> !usableName(store, name[pos(name, j) :])))
+        || (exists i Int :: 0 <= i && i < len(split(name, ".")) - 1 && r == name[pos(name, i) :] && usableName(store, r)
+              && (forall j Int {pos(name, j)} :: 0 <= j && j < i ==> !usableName(store, name[pos(name, j) :])))
+  loop 0
+    invariant 0 <= i && i <= l && l == len(fragments) - 1 && fragments == split(name, ".") && sum == pos(name, i)
+    invariant forall j Int {pos(name, j)} :: 0 <= j && j < i ==> !usableName(store, name[pos(name, j) :])
+@*/
+
+/*@
 module state
 props C11 C12
 dialect neovm
